@@ -189,6 +189,10 @@ func genMsgNonce(r *rand.Rand, n int) []string {
 			prot = fmt.Sprintf("{ int:1 int:%d int:6 b:%s }", alg, hx(randBytes(r, 1+r.Intn(ns-1))))
 		case 7: // a caller IV of zero octets only: used verbatim like any other
 			unprot = "{ int:5 b:" + hx(make([]byte, ns)) + " }"
+		case 4: // the first message of a counter: an all-zero Partial IV under a key with a Base IV (nonce = Base IV)
+			unprot = "{ int:6 b:" + hx(make([]byte, 1+(i/9)%2)) + " }"
+			extra = []string{"int:5", "b:" + hx(randBytes(r, ns))}
+			k = msgKey{alg: alg, priv: symKeyTok(alg, kb, extra...), pub: symKeyTok(alg, kb, extra...)}
 		}
 		p := buildProduce(r, kind, mode, payloadTok(r, mode, false), prot, unprot, extTok(r), []msgKey{k})
 		out = append(out, p.line)
@@ -207,6 +211,12 @@ func genMsgNonce(r *rand.Rand, n int) []string {
 		out = append(out, p.consumeLine(p.data, p.ext, []string{k2}))
 		for j := 0; j < 2; j++ {
 			out = append(out, tamper(r, p))
+		}
+		// the nonce material taken out of the unprotected bucket, emptied, moved under another label, or shadowed
+		for _, label := range []byte{5, 6} {
+			for _, d := range unprotTampers(r, p.data, label) {
+				out = append(out, p.consumeLine(d, p.ext, p.pubKeys()))
+			}
 		}
 		// history on one key object: a second encryption (other Partial IV / IV), and decryption after encryption —
 		// each must derive its nonce as if the key had never been used
@@ -280,6 +290,12 @@ func genMsgForeign(r *rand.Rand, n int) []string {
 			alg = algs[(round/2)%len(algs)]
 		}
 		k := genMsgKey(r, alg, false)
+		// fixed slot (COSE_Sign): the key has a kid but the signature entry carries none and names another algorithm — there
+		// is no verifier "for" it, it is not to be tried against the others
+		kidlessSig := kind == "sign" && round%6 == 0 && (round/6)%2 == 1
+		for kidlessSig && len(k.kid) == 0 {
+			k = genMsgKey(r, alg, false)
+		}
 		kk := keyFromToks(strings.Fields(k.priv))
 		ext := unhxOpt(extTok(r))
 		extOrEmpty := ext
@@ -374,11 +390,11 @@ func genMsgForeign(r *rand.Rand, n int) []string {
 					skeys = append(skeys, sk)
 				}
 				signProt := foreignBucket(r, alg, r.Intn(4) != 0) // a quarter without alg: h'a0' or h''
-				if j > 0 && (r.Intn(3) == 0 || twoUnderOneKid) {
+				if (j > 0 && (r.Intn(3) == 0 || twoUnderOneKid)) || (kidlessSig && j == nSig-1) {
 					// a later signature names another algorithm than its key's (made with the key over its own bucket, so
 					// the primitive accepts it): the algorithm check is per signature, not per kid
 					oa := sigAlgs[r.Intn(len(sigAlgs))]
-					for twoUnderOneKid && oa == alg {
+					for (twoUnderOneKid || kidlessSig) && oa == alg {
 						oa = sigAlgs[r.Intn(len(sigAlgs))]
 					}
 					signProt = foreignBucket(r, oa, true)
@@ -391,7 +407,7 @@ func genMsgForeign(r *rand.Rand, n int) []string {
 				}
 				sig, _ := s.Sign(tobe)
 				su := []*cnode{}
-				if len(sk.kid) > 0 {
+				if len(sk.kid) > 0 && !(kidlessSig && j == nSig-1) {
 					su = append(su, &cnode{mt: 0, n: 4}, &cnode{mt: 2, b: sk.kid})
 				}
 				sigs = append(sigs, &cnode{mt: 4, kids: []*cnode{{mt: 2, b: signProt}, {mt: 5, kids: su}, {mt: 2, b: sig}}})
@@ -430,6 +446,15 @@ func genMsgForeign(r *rand.Rand, n int) []string {
 		out = append(out, p.consumeLine(msg, p.ext, p.pubKeys()), "msg.reencode "+kind+" "+hx(msg))
 		if round%2 == 0 { // the same message object and verifier over two foreign messages / two external data (every kind, every algorithm)
 			out = append(out, history(r, p)[:3]...)
+		}
+		if kind == "sign" { // the decoded message signed again by the same signers (private keys)
+			var pk []string
+			for _, sk := range foreignKeys {
+				pk = append(pk, sk.priv)
+			}
+			if len(foreignKeys) == 1 { // (one entry per signer: only messages with one signature per key are re-signed like-for-like)
+				out = append(out, fmt.Sprintf("msg.resign %s %s | %s", hxOpt(ext), hx(msg), strings.Join(pk, " | ")))
+			}
 		}
 		// chain: decode -> encode -> decode -> verify, on the library
 		if re := reencode(kind, msg); strings.HasPrefix(re, "ok ") {
